@@ -170,6 +170,10 @@ class Env:
             return self.bi_type(it, [v.inner], k)
         if isinstance(v, ExcVal):
             return ExcClass(v.cls)
+        if isinstance(v, Opaque) and v.kind == 'ret':
+            if not hasattr(v, 'type_obj'):
+                v.type_obj = Obj('typeof', {'of': v})
+            return v.type_obj
         raise Unsupported('type() of %r' % (v,))
 
     def bi_len(self, it, a, k):
